@@ -193,7 +193,7 @@ def c05(run):
         D.oracle(run, 'reuse', [])
     run.cov['rule'] = ('5 single-key kinds x produce/consume x (header alg, key alg) over the 24 registered algorithms incl. pairs sharing key material x 11 header representations '
                        '(int, int64, uint64, key.Alg, int32, text, null, float, bytes, out-of-range, bool) x headers present/absent/nil; COSE_Sign with 1-3 signers and verifiers by kid; '
-                       'thorough: all 24x24 ordered pairs x 5 kinds x 3 representations; stream reuse: a decoded message produced again by its owner with a key of a sibling algorithm (incl. the pairs sharing key bytes), before and after the protected header is edited in place: refused, resp. leaves the library naming the new key\'s algorithm and is accepted under that key only')
+                       'thorough: all 24x24 ordered pairs x 5 kinds x 3 representations; stream reuse: a decoded message produced again by its owner with a key of a sibling algorithm (incl. the pairs sharing key bytes), before and after the protected header is edited in place: refused, resp. leaves the library naming the new key\'s algorithm and is accepted under that key only; stream objhist: random histories (3-11 steps) on ONE message object of the five single-key kinds: UnmarshalCBOR (own output, other histories\' output, mutated, empty-bucket messages), WithSign / Compute / Encrypt and Verify / Decrypt with two keys that often share their secret, MarshalCBOR, AddRecipient, in-place and replacing edits of Protected / Unprotected / Payload; the outcome of every call and the exported fields after every step compared with Model/MsgObj.v; after every history a fresh object must see empty maps for empty buckets')
     return D.finish(run, 'proof')
 
 
@@ -369,7 +369,7 @@ def c03(run):
         D.oracle(run, 'msgreal', [])
         D.oracle(run, 'realseq', [])
     run.cov['rule'] = ('fake-primitive Encrypt0 / Encrypt messages: IV, Partial IV + Base IV, generated IV; wrong key, wrong external data, mutated encodings (12 classes), Payload inspected after every failed Decrypt; '
-                       '12 real AEAD algorithms: bit flips over ciphertext / IV / protected bytes / tag prefix / array shape, truncation, extension, other key, other kind, splices')
+                       '12 real AEAD algorithms: bit flips over ciphertext / IV / protected bytes / tag prefix / array shape, truncation, extension, other key, other kind, splices; stream objhist: random histories (3-11 steps) on ONE message object of the five single-key kinds: UnmarshalCBOR (own output, other histories\' output, mutated, empty-bucket messages), WithSign / Compute / Encrypt and Verify / Decrypt with two keys that often share their secret, MarshalCBOR, AddRecipient, in-place and replacing edits of Protected / Unprotected / Payload; the outcome of every call and the exported fields after every step compared with Model/MsgObj.v; after every history a fresh object must see empty maps for empty buckets')
     return D.finish(run, 'proof')
 
 
@@ -392,7 +392,7 @@ def c09(run):
         D.oracle(run, 'values', [])
         D.oracle(run, 'realseq', [])
     run.cov['rule'] = ('every produced message of the 6 kinds decoded and re-encoded (bytes must be identical), in the three tagging forms; mutated and foreign (non-canonical, verifying) encodings re-encoded and consumed again; '
-                       'recipients with one nesting level, KDF contexts with nil / empty / non-empty members, header maps; keys of all 24 algorithms and random key maps, key sets, claim sets in struct and map form, ByteStr in 3 forms: encode, decode, compare, encode again')
+                       'recipients with one nesting level, KDF contexts with nil / empty / non-empty members, header maps; keys of all 24 algorithms and random key maps, key sets, claim sets in struct and map form, ByteStr in 3 forms: encode, decode, compare, encode again; stream objhist: random histories (3-11 steps) on ONE message object of the five single-key kinds: UnmarshalCBOR (own output, other histories\' output, mutated, empty-bucket messages), WithSign / Compute / Encrypt and Verify / Decrypt with two keys that often share their secret, MarshalCBOR, AddRecipient, in-place and replacing edits of Protected / Unprotected / Payload; the outcome of every call and the exported fields after every step compared with Model/MsgObj.v; after every history a fresh object must see empty maps for empty buckets')
     return D.finish(run, 'proof')
 
 
@@ -412,7 +412,7 @@ def c01(run):
         D.oracle(run, 'msgreal', [])
         D.oracle(run, 'realseq', [])
     run.cov['rule'] = ('6 kinds x fake keys (alg / kid / Base IV variants) x header maps (int / text labels of several Go integer types; int, bstr, tstr, bool, array, nested-map values) x payload kinds (nil, empty, bytes 1..70000 crossing every length-head class, RawMessage, typed) x external data (nil, empty, up to 256 bytes) x 0..3 recipients with one nesting level / 0..4 signers, consumed tagged, untagged and CWT-tagged; '
-                       '24 real algorithms x 2 kinds each x payload lengths 0..1000 (thorough: 65535..70000) x headers x external data, consumed in the three forms with content compared')
+                       '24 real algorithms x 2 kinds each x payload lengths 0..1000 (thorough: 65535..70000) x headers x external data, consumed in the three forms with content compared; stream objhist: random histories (3-11 steps) on ONE message object of the five single-key kinds: UnmarshalCBOR (own output, other histories\' output, mutated, empty-bucket messages), WithSign / Compute / Encrypt and Verify / Decrypt with two keys that often share their secret, MarshalCBOR, AddRecipient, in-place and replacing edits of Protected / Unprotected / Payload; the outcome of every call and the exported fields after every step compared with Model/MsgObj.v; after every history a fresh object must see empty maps for empty buckets')
     return D.finish(run, 'proof')
 
 
